@@ -70,30 +70,34 @@ def discharge(obl, timeout_ms=10000, want_model=True, use_cvc5=True):
     ax = lib.theory_axioms(fs)
     size = _formula_size(fs)
 
-    def run(tactic=None):
+    def run(tactic=None, tmo=timeout_ms):
         s = z3.Solver() if tactic is None else z3.Then(*tactic).solver() if isinstance(tactic, (list, tuple)) else z3.Tactic(tactic).solver()
-        s.set("timeout", timeout_ms)
+        s.set("timeout", int(tmo))
         s.add(*ax)
         s.add(*fs)
         r = s.check()
         return s, r
 
-    s, r = run()
+    # staged: a short default attempt, then the nonlinear tactic (each wins on some goals), then cvc5, then the
+    # default solver with the full budget
+    s, r = run(tmo=max(500, timeout_ms // 5))
     backend = "z3"
     if r == z3.unknown:
-        # second attempt: nonlinear real arithmetic tactic (each wins on some goals)
         try:
-            s2, r2 = run("qfnra-nlsat")
+            s2, r2 = run("qfnra-nlsat", tmo=max(1000, timeout_ms // 2))
             if r2 != z3.unknown:
                 s, r, backend = s2, r2, "z3:qfnra-nlsat"
         except z3.Z3Exception:
             pass
     if r == z3.unknown and use_cvc5:
-        r3 = cvc5_check(ax + fs, timeout_ms)
+        r3 = cvc5_check(ax + fs, max(1000, timeout_ms // 2))
         if r3 in ("sat", "unsat"):
             backend = "cvc5"
             r = z3.sat if r3 == "sat" else z3.unsat
             s = None
+    if r == z3.unknown:
+        s, r = run()
+        backend = "z3"
     dt = time.time() - t0
     common = dict(kind=obl.kind, props=obl.props, line=obl.line, path=obl.path, size=size, meta=obl.meta)
     if is_canary:
@@ -104,6 +108,15 @@ def discharge(obl, timeout_ms=10000, want_model=True, use_cvc5=True):
         return Result(obl.name, "discharged", backend, dt, **common)
     if r == z3.sat:
         res = Result(obl.name, "failed", backend, dt, **common)
+        if s is not None:
+            # a counter-model that only exists because exp is uninterpreted is not a violation
+            from . import numeval
+            if numeval.has_exp(fs):
+                verdict = numeval.classify(s.model(), hyps, goal)
+                if verdict == "spurious":
+                    return Result(obl.name, "unknown", backend, dt, reason="counter-model is spurious under the real exp "
+                                  "(instantiated exp axioms too weak)", **common)
+                res.meta = dict(res.meta, numeric_recheck=verdict)
         if want_model and s is not None:
             m = s.model()
             res.model = {str(d): str(m[d]) for d in list(m.decls())[:60] if d.arity() == 0}
